@@ -82,6 +82,11 @@ def literal_lexemes(text):
 def examine(case):
     if case.get("kind") == "sweep":
         return examine_sweep(case)
+    with lib.ambient(case.get("ambient")):
+        return _examine(case)
+
+
+def _examine(case):
     q = case["q"]
     registry = C10REG if case.get("registry") == "probes" else None
     env = c10env() if registry else None
@@ -164,6 +169,9 @@ def plan(tier, seed):
         ranges = [(lo, min(lo + 0x4000, 0x110000)) for lo in range(0, 0x110000, 0x4000)]
     for i in range(16):
         specs[i]["sweep"] = ranges[i::16]
+    from vlib.runner import INTERPRETERS
+    for name in INTERPRETERS:
+        specs.append({"n": 80 if tier == "quick" else 500, "interp": name, "sweep": [(0, 0x100)]})
     return specs
 
 
@@ -314,8 +322,10 @@ def run_shard(spec, shard):
             chosen = r.sample(sorted(k for k in C10REG if k.startswith("p")), 5) + ["length", "count"]
             registry = {k: C10REG[k] for k in chosen}
         dn, ds, dnum = Q.pools(doc)
+        # float literals with many significant digits (their text form is the subject of this property)
+        long_floats = [round(r.uniform(-1e4, 1e4), r.randint(3, 12)) for _ in range(2)] + [r.random() * 10 ** r.randint(-9, 15)]
         g = Q.QGen(r, names=list(dict.fromkeys(dn))[:8] + names[:3], strings=list(dict.fromkeys(ds))[:6] + ["a", "'", "\\", "\n"],
-                   registry=registry, numbers=dnum[:8], filters=True, max_filter_depth=2)
+                   registry=registry, numbers=dnum[:8] + long_floats, filters=True, max_filter_depth=2)
         g.doc = doc
         g.evalr = ev.Evaluator(registry)
         base = g.guided_query(doc, 0, 2, hit_p=0.9)
@@ -362,6 +372,9 @@ def run_shard(spec, shard):
         for _ in range(3 if tier == "quick" else 5):
             docs.append(doc_for_query(r, [plain]))
         case = {"q": text, "docs": docs}
+        amb = r.choice(lib.AMBIENTS) if r.random() < 0.35 else "default"
+        if amb != "default":
+            case["ambient"] = amb
         if use_probes:
             case["registry"] = "probes"
         feats = Q.features(plain)
@@ -382,7 +395,8 @@ def run_shard(spec, shard):
                 for _ in range(10):
                     docs.append(diff.make_doc(r, tier, names=names, falsy_bias=0.4, wide_p=0.0))
         shard.case(key=text, nontrivial=nt, classes=set(feats) | ({"probe-registry"} if use_probes else set())
-                   | ({"compound-paren"} if compound_paren else set()), sample={"q": text, "str": str(cq) if st == "ok" else None})
+                   | ({"compound-paren"} if compound_paren else set()) | {"ambient:" + amb}
+                   | ({"float-literal-7+-digits"} if any(x and x[0] == "lit" and len(x) > 1 and isinstance(x[1], float) and len(repr(x[1]).replace("-", "").replace(".", "")) >= 7 for x in Q.walk(plain)) else set()), sample={"q": text, "str": str(cq) if st == "ok" else None})
         f = examine(case)
         if f:
             shard.fail(f["bucket"], case, f, size=len(text))
